@@ -109,6 +109,48 @@ def witness_unhashable():
     return False
 
 
+def host_timeout_scenarios(chk):
+    """
+    Runtime behaviour the model cannot exhibit: under a HostContext every datasource arms a SIGALRM
+    timeout.  A datasource that FAILS must not leave the alarm armed — otherwise it fires inside an
+    unrelated later component (which loses its value and gets a TimeoutException recorded against it).
+    Real time is needed (signal.alarm counts whole seconds): 2 scenarios x ~1.3 s.
+    """
+    import signal
+    import time
+    from insights.core.context import HostContext
+    from insights.core.exceptions import ContentException
+    for fault in ("content", "crash1"):
+        @plugins.datasource(HostContext, timeout=1)
+        def failing(broker, _f=fault):
+            W.raise_exc(_f, -1)
+
+        @plugins.component(HostContext, optional=[failing])
+        def later(hc, f):
+            time.sleep(1.3)
+            return "value"
+        b = dr.Broker()
+        b[HostContext] = HostContext()
+        err = None
+        try:
+            dr.run(dr.get_dependency_graph(later), broker=b)
+        except Exception as ex:
+            err = ex
+        finally:
+            signal.alarm(0)
+            signal.signal(signal.SIGALRM, signal.SIG_DFL)
+        case = {"scenario": "host-timeout", "fault": fault}
+        chk.case(("host-timeout", fault), True)
+        chk.count("host-timeout-scenario")
+        if err is not None:
+            chk.failure("an exception escaped the evaluation after a datasource failed under HostContext: %r" % (err,), case)
+        elif b.get(later) != "value":
+            chk.failure("a component that does not need the failed datasource lost its value: %r; recorded against it: %r"
+                        % (b.get(later), b.exceptions.get(later)), case)
+        elif b.exceptions.get(later):
+            chk.failure("exceptions recorded against an unrelated component: %r" % (b.exceptions.get(later),), case)
+
+
 def run(chk):
     quick = chk.tier == "quick"
     n_worlds = 900 if quick else 15000
@@ -126,6 +168,7 @@ def run(chk):
     if witness_unhashable():
         chk.finding_reproduced(KNOWN_UNHASHABLE)
     chk.witnesses.append("unhashable exception instance")
+    host_timeout_scenarios(chk)
     lines, impl, cases = [], [], []
 
     def bad_observer(comp, broker):
@@ -168,4 +211,19 @@ def run(chk):
 
 
 def replay(data):
+    if data["case"].get("scenario") == "host-timeout":
+        class Rep(object):
+            found = []
+            def failure(self, d, c, finding=None):
+                self.found.append(d)
+            def case(self, *a, **k):
+                pass
+            def count(self, *a, **k):
+                pass
+        rep = Rep()
+        host_timeout_scenarios(rep)
+        for d in rep.found:
+            print("oracle:", d)
+        print("property violated on this input" if rep.found else "property holds on this input")
+        return 1 if rep.found else 0
     return W.generic_replay(data, oracle)
